@@ -677,9 +677,13 @@ impl Model {
                         Vis::Live => {
                             self.comparisons += 1;
                             if status != st::OK {
+                                // C05 covers both directions: a TTL that ends early, and "an item with TTL 0
+                                // never expires"
                                 let mut tags = vec!["C01"];
                                 if it.ttls.iter().any(|t| *t != 0) {
                                     tags.insert(0, "C05");
+                                } else {
+                                    tags.push("C05");
                                 }
                                 return Err(viol(
                                     &tags,
